@@ -179,7 +179,13 @@ class _ReusablePoolExecutor(ProcessPoolExecutor):
                     f"Create a executor with max_workers={max_workers}."
                 )
                 executor_id = _get_next_executor_id()
-                _executor_kwargs = kwargs
+                # Remember copies of the dict arguments (env, reducers): a
+                # caller mutating one in place must not go unnoticed by the
+                # comparison made under reuse='auto'.
+                _executor_kwargs = {
+                    k: (v.copy() if isinstance(v, dict) else v)
+                    for k, v in kwargs.items()
+                }
                 _executor = executor = cls(
                     _executor_lock,
                     max_workers=max_workers,
